@@ -92,6 +92,13 @@ Definition x_vec_inputs (xm : xcqm) (ls : list label) (rows : list (list Qc)) : 
                end
   end.
 
+(* as_samples on a list / iterator of samples (sampleset.py:_as_samples_iterator): the labels are those of the
+   FIRST sample; every later sample comes with its own label order and is re-aligned,
+        reindex = [labels.index(v) for v in first_labels]; samples = samples[:, reindex]
+   (Samples.reindex_row) before the rows are stacked into the matrix the energies are computed on *)
+Definition align_rows (first : list label) (lrs : list (list label * list Qc)) : list (list Qc) :=
+  map (fun lr => reindex_row first (fst lr) (snd lr)) lrs.
+
 (* ---- well-formedness / coverage, as booleans for the check ---- *)
 Definition xexpr_wfb (e : xexpr) : bool :=
   Adj.inv_b (x_base e) && (length (x_vars e) =? Adj.nvars (x_base e))%nat.
